@@ -1,5 +1,5 @@
 CHECK = {
-        "obligations": ["C13.c13_gapfree", "C13.c13_wire_increasing", "C13.c13_section_exclusive", "C13.c13_order", "C13.c13_call_order", "C13.plsOf_prog", "C13.c13_nonce_unique",
+        "obligations": ["C13.c13_gapfree", "C13.c13_wire_increasing", "C13.c13_section_exclusive", "C13.c13_order", "C13.c13_call_order", "C13.plsOf_prog", "C13.c13_nonce_unique", "C13.c13_nonce_unique_peer_ids",
                         "C13.call_wf", "C13.gen_shape", "C13.gen_structure", "C13.gen_ids", "C13.c13_unlocked_witness",
                         "SN.step_inv", "SN.run_inv", "SN.step_Q",
                         "C13.c13_close_last", "C13.c13_one_closing", "C13.call_guarded", "C13.c13_chk_outside_witness", "SN.step_ci", "SN.run_ci"],
